@@ -171,7 +171,12 @@ def run(ctx, replay_case):
     except FileNotFoundError:
         pass
     # example
-    ex_names = rnd.sample([n for n, _ in L["cc"]], 3 if ctx.tier == "quick" else 20) + (["TPMT_PUBLIC"] if ctx.tier == "thorough" else [])
+    # type names: types that other declared types derive from (an example of a derived type is not an example of X) and others
+    tnames = list(L["structures"])      # the names the command line accepts as types (tpmstream.spec.all_types)
+    parents = [n for n in ("TPM2B_DIGEST", "TPM_HANDLE", "TPM_ALG_ID", "TPMS_SCHEME_HASH", "UINT8", "UINT16", "UINT32", "TPM_ST",
+                           "TPMS_EMPTY", "TPM2B_PUBLIC", "TPMT_PUBLIC") if n in tnames]
+    ex_names = rnd.sample([n for n, _ in L["cc"]], 3 if ctx.tier == "quick" else 20) \
+        + (rnd.sample(parents, 4) + rnd.sample(tnames, 3) if ctx.tier == "quick" else parents + rnd.sample(tnames, 20))
 
     def do(job):
         return cli(job[1])
@@ -291,7 +296,8 @@ def run(ctx, replay_case):
             viol("cli:example", f"`example {name}` exits with status {rc}", {"argv": ["example", name], "stderr": err[-300:]})
             continue
         blocks = [b for b in out.split("\n\n") if b.strip()]
-        for blk in blocks[: (5 if ctx.tier == "quick" else 50)]:
+        budget = 5 if ctx.tier == "quick" else 50
+        for blk in blocks:
             head = blk.split("\n")[0]
             m = re.match(r"^(\w+):((?: [0-9a-f]*)*)$", head)
             if not m:
@@ -300,17 +306,21 @@ def run(ctx, replay_case):
             tname, hx = m.group(1), re.sub(r"\s", "", m.group(2))
             data = bytes.fromhex(hx)
             if tname == "Command":
-                if len(data) < 10 or int.from_bytes(data[6:10], "big") != dict(L["cc"])[name]:
+                if len(data) < 10 or int.from_bytes(data[6:10], "big") != dict(L["cc"]).get(name):
                     viol("cli:example", f"`example {name}` prints a command with another command code", {"hex": hx})
                     break
-                lines, exc = library_lines("binary", "pretty", "Command", None, data)
-            elif tname == "Response":
-                lines, exc = library_lines("binary", "pretty", "Response", dict(L["cc"]).get(name), data)
+                args = ("Command", None)
+            elif tname == "Response" and name in dict(L["cc"]):
+                args = ("Response", dict(L["cc"])[name])
             elif tname == name:
-                lines, exc = library_lines("binary", "pretty", tname, None, data)
+                args = (tname, None)
             else:
                 viol("cli:example", f"`example {name}` prints an example of {tname}", {"header": head[:200]})
                 break
+            budget -= 1
+            if budget < 0:
+                continue        # the headers of all blocks are checked, the re-decode of the first ones
+            lines, exc = library_lines("binary", "pretty", args[0], args[1], data)
             shown = "\n".join(blk.split("\n")[1:])
             if exc is not None or ANSI.sub("", shown).rstrip() != lines.rstrip():
                 viol("cli:example", f"`example {name}`: the printed example does not re-decode to what is shown", {"hex": hx, "type": tname})
